@@ -34,6 +34,19 @@ type docParams struct {
 	Chap     []int `json:"chap,omitempty"`
 	ChapHead bool  `json:"chaphead,omitempty"`
 	ChapFoot bool  `json:"chapfoot,omitempty"`
+	// Sizes gives the page size of page p at index p-1 as an index into pageSizes (missing = 0)
+	Sizes []int `json:"sizes,omitempty"`
+}
+
+// pageSizes: MediaBox sizes (none smaller than Letter, so every text position stays on the page)
+var pageSizes = [][2]int{{612, 792}, {700, 800}, {650, 900}, {800, 1000}}
+
+func (d docParams) sizeOf(p int) (int, int) {
+	if p-1 < len(d.Sizes) {
+		s := pageSizes[d.Sizes[p-1]%len(pageSizes)]
+		return s[0], s[1]
+	}
+	return 612, 792
 }
 
 const (
@@ -52,6 +65,9 @@ func (d docParams) key() string {
 	}
 	if len(d.Chap) > 0 {
 		k += fmt.Sprintf("-chap%v-%v-%v", d.Chap, d.ChapHead, d.ChapFoot)
+	}
+	if len(d.Sizes) > 0 {
+		k += fmt.Sprintf("-sizes%v", d.Sizes)
 	}
 	return k
 }
@@ -212,6 +228,9 @@ func (d docParams) spec() docSpec {
 	ds := docSpec{nested: d.Nested, noPages: d.Kind == "nopages", infoDict: d.N%2 == 0}
 	for p := 1; p <= d.N; p++ {
 		var ps pageSpec
+		if len(d.Sizes) > 0 {
+			ps.w, ps.h = d.sizeOf(p)
+		}
 		if !d.isBlank(p) {
 			if d.HF {
 				ps.lines = append(ps.lines, textLine{x: 72, y: 760, s: "Quarterly Report"})
